@@ -320,6 +320,10 @@ func (vc *VC) loadGlobal(g *ssa.Global, st *State) string {
 			if kind == "err" || kind == "nonnil" {
 				vc.d.axioms = append(vc.d.axioms, fmt.Sprintf("(assert (> %s 0))", cn))
 			}
+			if strings.HasPrefix(kind, "slice:") {
+				n := strings.TrimPrefix(kind, "slice:")
+				vc.d.axioms = append(vc.d.axioms, fmt.Sprintf("(assert (and (= (s-len %s) %s) (= (s-cap %s) %s) (= (s-off %s) 0) (> (s-arr %s) 0)))", cn, n, cn, n, cn, cn))
+			}
 			if kind == "err" {
 				for o := range vc.d.funs {
 					if strings.HasPrefix(o, "g.") && o != cn && vc.errGlobals()[o] {
